@@ -118,6 +118,7 @@ pub fn c01(a: &Args) {
     }
     lexical_variants(a, &mut out, &mut rng);
     corpus_c01(a, &mut out);
+    degenerate(&mut out, "count");
     crate::cli_props::cli_pass(a, &mut out, &mut rng, &["count", "count-stdin"]);
     crate::shifted_props::shifted(a, &mut out, &mut rng, &["count"]);
     out.finish("(+ renumbered models: features base+1..base+n for base 126 / 254 / 1020, judged by the small model's truth table: count) (+ CLI pass: the rebuilt binary's `count` on a sample of the models, judged by the same oracles) G1: every satisfiable function over 1..3 features x every order x {d4 tree, d4 shared, d4 shared+f-edges, c2d tree, c2d shared} (sampled in quick tier), G3: random well-formed d4 / c2d circuits (n<=9); a case is non-trivial when the function is neither constant true nor has <3 lines; distinct by file text; lexical variants: the raw lines of generated files with blanks doubled / turned into tabs, leading zeros, dropped or doubled terminators, trailing blanks and junk, signs: the real loader (array or panic) vs the character-level lexer models + loader model");
@@ -199,6 +200,41 @@ fn corpus_c01(a: &Args, out: &mut Out) {
     if auto1.len() == 2 && auto1[0] != auto1[1] { out.fail("same-function-same-count", "auto1_c2d vs auto1_d4", "rc()", &auto1[0], &auto1[1]); }
 }
 
+/// models that consist of a single leaf or a single decision over one or two features (the smallest inputs of the space):
+/// count, counts / SAT under every list of up to two literals, per-feature table, core - judged by the text's truth table
+fn degenerate(out: &mut Out, which: &str) {
+    let mk = |fmt: Fmt, n: u32, lines: &[&str]| GenFile { fmt, lines: lines.iter().map(|s| s.to_string()).collect(), n, origin: "degenerate".into() };
+    let files = vec![
+        mk(Fmt::C2d, 1, &["nnf 1 0 1", "L 1"]), mk(Fmt::C2d, 1, &["nnf 1 0 1", "L -1"]),
+        mk(Fmt::C2d, 2, &["nnf 3 2 2", "L -1", "L 2", "A 2 0 1"]), mk(Fmt::C2d, 2, &["nnf 3 2 2", "L -1", "L -2", "A 2 0 1"]),
+        mk(Fmt::D4, 1, &["t 1 0"]), mk(Fmt::D4, 1, &["o 1 0", "t 2 0", "1 2 -1 0"]), mk(Fmt::D4, 1, &["o 1 0", "t 2 0", "1 2 1 0"]),
+        mk(Fmt::D4, 2, &["o 1 0", "t 2 0", "1 2 -1 -2 0"]), mk(Fmt::D4, 2, &["o 1 0", "t 2 0", "1 2 -2 0"]), mk(Fmt::D4, 3, &["t 1 0"]),
+    ];
+    for file in files {
+        let tt = file.tt();
+        let Some(mut d) = load_or_fail(out, &file) else { continue };
+        out.eval(Some(format!("{}|degenerate|{which}", file.text())));
+        out.count("degenerate_models", 1);
+        let n = file.n as i32;
+        let mut lists: Vec<Vec<i32>> = vec![vec![]];
+        for v in 1..=n { lists.push(vec![v]); lists.push(vec![-v]); for w in 1..=n { lists.push(vec![v, -w]); lists.push(vec![-v, -w]); } }
+        match which {
+            "count" => { let got = d.rc().to_string(); if got != tt.count().to_string() { out.fail("count", &file.text(), &format!("rc() -t {n}"), &got, &tt.count().to_string()); } }
+            "query" => for l in &lists { let got = guarded(|| d.execute_query(l)).map(|x| x.to_string()).unwrap_or_else(|e| format!("panic: {e}")); if got != tt.count_with(l).to_string() { out.fail("execute_query", &file.text(), &format!("count {:?} -t {n}", l), &got, &tt.count_with(l).to_string()); } },
+            "sat" => for l in &lists { let got = guarded(|| d.sat(l)).map(|x| x.to_string()).unwrap_or_else(|e| format!("panic: {e}")); let want = (tt.count_with(l) > 0).to_string(); if got != want { out.fail("sat", &file.text(), &format!("sat {:?} -t {n}", l), &got, &want); } },
+            "table" => match guarded(|| d.card_of_each_feature().collect::<Vec<_>>()) {
+                Err(e) => out.fail("card_of_each_feature", &file.text(), "table", &format!("panic: {e}"), "a table"),
+                Ok(rows) => { if rows.len() != n as usize { out.fail("rows", &file.text(), "table", &rows.len().to_string(), &n.to_string()); }
+                    for (i, (v, card, ratio)) in rows.iter().enumerate() { let w = tt.count_with(&[i as i32 + 1]); let exact = w as f64 / tt.count() as f64;
+                        if *v != i as i32 + 1 || *card != BigInt::from(w) || !((ratio - exact).abs() <= 1e-12) { out.fail("cardinality", &file.text(), &format!("feature {} -t {n}", i + 1), &format!("{},{},{}", v, card, ratio), &format!("{},{},{}", i + 1, w, exact)); } } }
+            },
+            "core" => { let tot = tt.count(); let mut want: Vec<i32> = (1..=n).filter_map(|v| { let c = tt.count_with(&[v]); if c == tot { Some(v) } else if c == 0 { Some(-v) } else { None } }).collect(); want.sort();
+                let mut got: Vec<i32> = d.get_core().into_iter().collect(); got.sort(); if got != want { out.fail("get_core", &file.text(), "get_core", &format!("{:?}", got), &format!("{:?}", want)); } }
+            _ => {}
+        }
+    }
+}
+
 // ------------------------------------------------------------------------------------------------
 fn lists_for(rng: &mut Rng, n: u32, thorough: bool) -> Vec<Vec<i32>> {
     let exhaustive_n = if thorough { 7 } else { 5 };
@@ -235,6 +271,8 @@ pub fn c02(a: &Args) {
                 else if s != want { out.fail("stream-count", &file.text(), &msg, &s, &want); }
             }
             if qi % 3 == 0 || l.len() > 7 { out.query("count", &fmt_ints(l), &got); }
+            // what the command line does after a count: look at the marked nodes of the same query (must not disturb later counts)
+            if qi % 7 == 3 && !l.is_empty() && l.len() <= 20 { let _ = guarded(|| d.get_marked_nodes_clone(l)); }
             if qi % 50 == 0 { out.sample(format!("{} lines, n={}, count {:?} -> {}", file.lines.len(), file.n, l, got)); }
         }
         // stream: per-variable form  count a A v V  = counts of A+v joined by ';'
@@ -265,6 +303,7 @@ pub fn c02(a: &Args) {
         }
     });
     corpus_c02(a, &mut out, &mut r2);
+    degenerate(&mut out, "query");
     crate::cli_props::cli_pass(a, &mut out, &mut rng, &["count", "count-queries"]);
     crate::shifted_props::shifted(a, &mut out, &mut rng, &["query"]);
     out.finish("(+ renumbered models: features base+1..base+n for base 126 / 254 / 1020, judged by the small model's truth table: query) (+ CLI pass: the rebuilt binary's `count / count-queries` on a sample of the models) every model of the C01 space x (all 3^n consistent partial assignments for n<=5 quick / n<=7 thorough, else 200 random ones) + random lists with duplicates/contradictions of lengths 1,2,3,5,19,20,21,22,40,70,130,300,1000; non-trivial = non-constant function and non-empty list; distinct by (file text, list)");
@@ -422,6 +461,7 @@ pub fn c03(a: &Args) {
             if small { out.query("sat", &fmt_ints(&l), &s.to_string()); }
         }
     }
+    degenerate(&mut out, "sat");
     crate::cli_props::cli_pass(a, &mut out, &mut rng, &["sat"]);
     crate::shifted_props::shifted(a, &mut out, &mut rng, &["sat"]);
     out.finish("(+ renumbered models: features base+1..base+n for base 126 / 254 / 1020, judged by the small model's truth table: sat) (+ CLI pass: the rebuilt binary's `sat` on a sample of the models, judged by the same oracles) same lists as C02; sat, sat_immutable, stream sat vs truth table; incremental sat_propagate with a kept mark vector on random chunkings (compared while earlier answers are 'satisfiable'); corpus: sat vs count>0 on every literal and random lists");
@@ -545,6 +585,7 @@ pub fn c04(a: &Args) {
             out.query("cardpd", "", &rows.iter().map(|r| r.1.to_string()).collect::<Vec<_>>().join(" "));
         }
     }
+    degenerate(&mut out, "table");
     crate::cli_props::cli_pass(a, &mut out, &mut rng, &["count-features"]);
     crate::shifted_props::shifted(a, &mut out, &mut rng, &["table"]);
     out.finish("(+ renumbered models: features base+1..base+n for base 126 / 254 / 1020, judged by the small model's truth table: table) (+ CLI pass: the rebuilt binary's `count-features` on a sample of the models, judged by the same oracles) every model of the C01 space: per-feature table vs truth table (cardinality per feature, row order, ratio within 1e-12 of card/total), equality with the single-literal count; corpus: table vs execute_query([f]) and CSV rows; non-trivial = non-constant function; distinct by file text");
@@ -639,6 +680,7 @@ pub fn c05(a: &Args) {
             out.query("core", "", &fmt_ints(&c));
         }
     }
+    degenerate(&mut out, "core");
     crate::cli_props::cli_pass(a, &mut out, &mut rng, &["core", "anomalies"]);
     crate::shifted_props::shifted(a, &mut out, &mut rng, &["core"]);
     out.finish("(+ renumbered models: features base+1..base+n for base 126 / 254 / 1020, judged by the small model's truth table: core) (+ CLI pass: the rebuilt binary's `core / anomalies` on a sample of the models, judged by the same oracles) every model of the C01 space x assumption lists of length 0..3 (all of length<=2 for n<=5, sampled length 3) x every candidate literal: get_core, core_dead/core/dead_with_assumptions, stream core (plain and per-candidate) vs truth table; corpus: core literal iff count of its complement is 0");
